@@ -112,8 +112,14 @@ def run(rep: Report) -> None:
     n_meta = 0
     for impl in ("casadi", "numpy") if rep.tier == "thorough" else ("casadi",):
         base_outputs = {}
-        for variant in ("base", "renamed", "reversed-construction", "renamed+reversed"):
+        for variant in ("base", "renamed", "reversed-construction", "renamed+reversed",
+                        "all links / origins / destinations share one name, variables supplied by the caller"):
             for name, gw in B.networks(prog, impl):
+                ic = None
+                if "share one name" in variant:
+                    for ident, o in gw.roles.items():
+                        o.attrs["name"] = {"link": "x", "origin": "o", "dest": "d"}.get(o.kind, "x")
+                    ic = B.caller_variables(gw)
                 if "renamed" in variant:
                     gw.name_alias = {}
                     for i, (ident, o) in enumerate(sorted(gw.roles.items())):
@@ -132,7 +138,7 @@ def run(rep: Report) -> None:
                     gw.graph = g2
                     gw.net.attrs["_graph"] = g2
                 try:
-                    it = B.step(prog, gw)
+                    it = B.step(prog, gw, init_conditions=ic)
                 except Raised as e:
                     rep.refuted("invariance", f"{impl}: {name} [{variant}]", "Network.step",
                                 f"stepping raises {e.exc}: {e.msg}", key=f"meta|raise|{variant}")
